@@ -668,7 +668,7 @@ func vRun(t *testing.T, sc *vScenario, opt vRunOpts) (res *vRunResult) {
 	// REAL-time watchdog (armed outside the bubble): a scenario that does not end - a handler of mysync that loops for
 	// ever on the virtual clock - is reported with every goroutine's stack and the process exits; the checker attributes
 	// it to the scenario recorded above and resumes the shard without it
-	hangAfter := time.Duration(vEnvInt("VERIF_HANG_S", 180)) * time.Second
+	hangAfter := time.Duration(vEnvInt("VERIF_HANG_S", 300)) * time.Second
 	wd := time.AfterFunc(hangAfter, func() {
 		fmt.Fprintf(os.Stderr, "\nVERIF-HANG scenario=%s did not end within %s of real time\n", sc.ID, hangAfter)
 		pprof.Lookup("goroutine").WriteTo(os.Stderr, 2)
